@@ -159,6 +159,12 @@ def run(tier, seed, replay=None):
             rep.disagreements.append({**case_json, "impl": "is_superset = Some", "model": v[0]})
             continue
         model = [(from_sx(p[0]), from_sx(p[1])) for p in v[2]]
+        if len(v) > 4:
+            rep.count("untouched-hypothesis:" + ("holds" if v[3] == "1" else "fails") + ":" + case[4])
+            if v[3] == "1" and v[4] != "1":
+                rep.broken.append(f"instance of C10_bound_roundtrip false in the executable model: {case}")
+            if v[3] != "1" and case[4] == "in-image" and any(val != ("id",) for val in subs[1].values()):
+                rep.count("in-image-but-untouched-fails")
         sig = subs[1]
         nontriv = any(val != ("id",) for val in sig.values())
         rep.case(case, nontriv, sample={"a": case[0], "b": case[1], "bounded": case[2], "trait": case[3], "class": case[4],
